@@ -6,7 +6,8 @@
 (*                                                                           *)
 (* Names: "n0" unqualified x, "nT" target-namespace y (a global attribute t:y  *)
 (* exists), "nA" x in a declared foreign namespace (a global a:x exists),      *)
-(* "nF" x in a namespace no schema document knows.                             *)
+(* "nF" x in a namespace no schema document knows, "nU" u in the TARGET          *)
+(* namespace without any global declaration (a loaded namespace, an unknown name). *)
 (* All declared / global attributes have type xs:integer; an instance value is *)
 (* a class: "v1" (1), "v01" (01: the same value in another lexical form),      *)
 (* "v2" (another value), "vx" (not an integer); value constraints are "1".     *)
@@ -14,8 +15,8 @@ EXTENDS XsdBase, TLC, Json
 
 CONSTANTS Small     \* TRUE: reduced value classes for the undeclarable names
 
-AttrNames == {"n0", "nT", "nA", "nF"}
-NsOf(n) == CASE n = "n0" -> "" [] n = "nT" -> "T" [] n = "nA" -> "A" [] n = "nF" -> "F"
+AttrNames == {"n0", "nT", "nA", "nF", "nU"}
+NsOf(n) == CASE n = "n0" -> "" [] n = "nT" -> "T" [] n = "nA" -> "A" [] n = "nF" -> "F" [] n = "nU" -> "T"
 HasGlobal(n) == n \in {"nT", "nA"}
 
 (* a declaration slot: "none" or [use, vc] *)
@@ -30,7 +31,8 @@ Wild == {NoWild} \cup {[c |-> c, pc |-> p] : c \in {"any", "other", "local", "tn
 ValClass == {"absent", "v1", "v01", "v2", "vx"}
 SmallClass == {"absent", "v1", "vx"}
 Inst == [n0 : ValClass, nT : ValClass,
-         nA : IF Small THEN SmallClass ELSE ValClass, nF : IF Small THEN SmallClass ELSE ValClass]
+         nA : IF Small THEN SmallClass ELSE ValClass, nF : IF Small THEN SmallClass ELSE ValClass,
+         nU : {"absent", "v1"}]
 
 IsInt(v)  == v \in {"v1", "v01", "v2"}
 ValueOf(v) == IF v = "v01" THEN "v1" ELSE v                \* value space: 01 = 1
@@ -89,24 +91,24 @@ DecodedFill(d0, dT, w, i, useDefaults) ==
 WiderWildcardAdmitsMore ==      \* "any" admits whatever a narrower constraint admits
   \A d0 \in Decl : \A dT \in Decl : \A p \in {"strict", "lax", "skip"} :
     \A c \in {"other", "local", "tns"} : \A i \in [n0 : {"absent", "v1"}, nT : {"absent", "vx"},
-                                                  nA : {"absent", "v1"}, nF : {"absent", "v1"}] :
+                                                  nA : {"absent", "v1"}, nF : {"absent", "v1"}, nU : {"absent"}] :
       ValidAttrs(d0, dT, [c |-> c, pc |-> p], i) => ValidAttrs(d0, dT, [c |-> "any", pc |-> p], i)
 SkipAdmitsMoreThanLaxThanStrict ==
   \A d0 \in Decl : \A dT \in Decl : \A c \in {"any", "other", "local", "tns"} :
     \A i \in [n0 : {"absent", "vx"}, nT : {"absent", "vx", "v1"},
-              nA : {"absent", "vx", "v1"}, nF : {"absent", "v1"}] :
+              nA : {"absent", "vx", "v1"}, nF : {"absent", "v1"}, nU : {"absent"}] :
       /\ ValidAttrs(d0, dT, [c |-> c, pc |-> "strict"], i) => ValidAttrs(d0, dT, [c |-> c, pc |-> "lax"], i)
       /\ ValidAttrs(d0, dT, [c |-> c, pc |-> "lax"], i) => ValidAttrs(d0, dT, [c |-> c, pc |-> "skip"], i)
 (* restricting uses (optional -> required, adding fixed) only narrows: feeds C14 *)
 TighterUseNarrows ==
   \A dT \in Decl : \A w \in Wild : \A i \in [n0 : ValClass, nT : {"absent", "v1"},
-                                             nA : {"absent"}, nF : {"absent"}] :
+                                             nA : {"absent"}, nF : {"absent"}, nU : {"absent"}] :
     /\ ValidAttrs([use |-> "required", vc |-> "none"], dT, w, i)
          => ValidAttrs([use |-> "optional", vc |-> "none"], dT, w, i)
     /\ ValidAttrs([use |-> "optional", vc |-> "fixed"], dT, w, i)
          => ValidAttrs([use |-> "optional", vc |-> "none"], dT, w, i)
 FillOnlyAdds ==
-  \A d0 \in Decl : \A dT \in Decl : \A i \in [n0 : {"absent", "v1"}, nT : {"absent", "v2"}, nA : {"absent"}, nF : {"absent"}] :
+  \A d0 \in Decl : \A dT \in Decl : \A i \in [n0 : {"absent", "v1"}, nT : {"absent", "v2"}, nA : {"absent"}, nF : {"absent"}, nU : {"absent"}] :
     \A u \in BOOLEAN :
       LET a == Decoded(d0, dT, NoWild, i, u)  b == DecodedFill(d0, dT, NoWild, i, u) IN
         /\ DOMAIN a \subseteq DOMAIN b /\ \A n \in DOMAIN a : a[n] = b[n]
